@@ -1,7 +1,7 @@
 (* C15 proofs, part 5: the JSON text ValueToJSON writes for a literal is read by the RFC 8259
    parser as the value the GraphQL specification gives the literal. *)
 From Gv Require Import lib.Bytes lib.Gql C15.Unicode C15.Model C15.Spec C15.Diag
-  C15.ProofsStr C15.ProofsNum C15.ProofsEnc C15.ProofsBlock.
+  C15.ProofsStr C15.ProofsNum C15.ProofsEnc C15.ProofsBlock C15.ProofsRescan.
 From Coq Require Import Lia ZifyN ZifyNat ZifyBool ZArith.
 Open Scope N_scope.
 
@@ -268,18 +268,18 @@ Section WithVars.
       unfold print, den. destruct b.
       + (* block *)
         cbn [value_to_json gql_denote]. cbn [go_safe_b] in Hsafe. unfold block_safe in Hsafe.
-        repeat (apply Bool.andb_true_iff in Hsafe; destruct Hsafe as [Hsafe ?]).
+        apply Bool.andb_true_iff in Hsafe. destruct Hsafe as [Hsafe ?].
         split.
         * exists 34, (json_encode_body O (block_string_value r) ++ [34]). split; reflexivity.
         * intros fuel rest Hf _. unfold json_encode_string.
-          rewrite <- (block_value_agrees r) by assumption.
+          rewrite <- (block_value_agrees_lexable r) by assumption.
           apply string_case; [|unfold json_encode_string in Hf; simpl in Hf; lia].
           apply encoded_string_read_back. assumption.
       + (* quoted *)
-        cbn [value_to_json gql_denote]. cbn [lit_valid_b] in Hv. cbn [go_safe_b] in Hsafe. unfold quoted_safe in Hsafe.
+        cbn [value_to_json gql_denote]. cbn [lit_valid_b] in Hv.
         destruct (gql_str GPlain r) as [out|] eqn:Eg; [|discriminate].
         split.
-        * exists 34, (escape_ctl r ++ [34]). split; reflexivity.
+        * exists 34, (quoted_json r ++ [34]). split; reflexivity.
         * intros fuel rest Hf _. unfold wrap_quotes.
           apply string_case; [|unfold wrap_quotes in Hf; simpl in Hf; lia].
           apply (quoted_string_agrees (length r)); auto.
